@@ -10,6 +10,7 @@ import (
 	"log"
 	"net"
 	"runtime"
+	"sync/atomic"
 	"testing"
 	"time"
 
@@ -41,7 +42,7 @@ import (
 // driver (crash_oracle) reports the case that was running.
 
 type c28Op struct {
-	K       string `json:"k"`               // stream | monitor | query | rec | burst | stop | members | close | hangup
+	K       string `json:"k"`               // stream | monitor | query | rec | burst | stop | members | close | hangup | openx | closerace
 	Sub     int    `json:"sub,omitempty"`   // subscription index (mod number of subscriptions)
 	Split   bool   `json:"split,omitempty"` // rec: header and body as separate writes
 	Mid     string `json:"mid,omitempty"`   // rec+split: "", stop, stop-other, close, hangup, stream, monitor, query, members
@@ -51,7 +52,11 @@ type c28Op struct {
 	InitErr bool   `json:"initerr,omitempty"`
 	NoAck   bool   `json:"noack,omitempty"` // query without an ack channel
 	N       int    `json:"n,omitempty"`     // burst: number of records
-	With    string `json:"with,omitempty"`  // burst: concurrent client action: stop | close
+	With    string `json:"with,omitempty"`  // burst: concurrent client action: stop | close; openx: close | hangup
+	// openx: a stream/monitor/query request (kind in Mid) that the agent has read
+	// but not answered when the client is closed (With: close) or the agent hangs
+	// up (With: hangup). closerace: N concurrent Close calls released together,
+	// with With == "hangup" the agent closes the connection at the same moment.
 }
 
 type c28Case struct {
@@ -72,8 +77,8 @@ func genC28(t *rapid.T) c28Case {
 	c.Ops[0].InitErr = false
 	n := rapid.IntRange(1, 12).Draw(t, "n")
 	for i := 0; i < n; i++ {
-		k := rapid.SampledFrom([]string{"open", "rec", "rec", "rec", "rec", "rec", "burst", "stop", "members", "close", "hangup"}).Draw(t, "k")
-		if (k == "close" || k == "hangup") && rapid.IntRange(0, 2).Draw(t, "lateclose") != 0 {
+		k := rapid.SampledFrom([]string{"open", "rec", "rec", "rec", "rec", "rec", "burst", "stop", "members", "close", "hangup", "openx", "closerace"}).Draw(t, "k")
+		if (k == "close" || k == "hangup" || k == "openx" || k == "closerace") && rapid.IntRange(0, 2).Draw(t, "lateclose") != 0 {
 			k = "rec" // closing early makes the rest of the script trivial
 		}
 		switch k {
@@ -100,6 +105,15 @@ func genC28(t *rapid.T) c28Case {
 				With: rapid.SampledFrom([]string{"stop", "stop", "stop", "close"}).Draw(t, "with")})
 		case "stop":
 			c.Ops = append(c.Ops, c28Op{K: "stop", Sub: rapid.IntRange(0, 3).Draw(t, "sub")})
+		case "openx":
+			c.Ops = append(c.Ops, c28Op{K: "openx",
+				Mid:   rapid.SampledFrom([]string{"stream", "monitor", "query"}).Draw(t, "xkind"),
+				Cap:   rapid.SampledFrom([]int{0, 1, 4}).Draw(t, "xcap"),
+				NoAck: rapid.Bool().Draw(t, "xnoack"),
+				With:  rapid.SampledFrom([]string{"close", "close", "hangup"}).Draw(t, "xwith")})
+		case "closerace":
+			c.Ops = append(c.Ops, c28Op{K: "closerace", N: rapid.IntRange(2, 4).Draw(t, "closers"),
+				With: rapid.SampledFrom([]string{"", "hangup", "hangup"}).Draw(t, "rwith")})
 		default:
 			c.Ops = append(c.Ops, c28Op{K: k})
 		}
@@ -184,6 +198,8 @@ type c28H struct {
 	bursts      int
 	recsToGone  int
 	hungUp      bool
+	openX       int
+	closeRaces  int
 	midKinds    map[string]int
 	inconReason string
 }
@@ -480,6 +496,45 @@ func c28Drain[T any](ch chan T, wait time.Duration) (n int, closed bool) {
 	}
 }
 
+// closeRace calls Close from n goroutines released together (they spin on a
+// flag, so those that are on a processor start within nanoseconds of each
+// other); with hangup the agent closes the connection at the same moment, so
+// the client's reader goroutine closes the client as well.
+func (h *c28H) closeRace(n int, hangup bool) bool {
+	h.closeRaces++
+	n = min(max(n, 2), 8)
+	var ready, goFlag atomic.Int64
+	done := make(chan struct{}, n)
+	for i := 0; i < n; i++ {
+		go func() {
+			ready.Add(1)
+			for spin := 0; goFlag.Load() == 0; spin++ {
+				if spin > 1<<14 {
+					runtime.Gosched()
+				}
+			}
+			_ = h.cl.Close()
+			done <- struct{}{}
+		}()
+	}
+	for ready.Load() < int64(n) {
+		runtime.Gosched()
+	}
+	if hangup {
+		_ = h.srv.Close()
+		h.hungUp = true
+	}
+	goFlag.Store(1)
+	for i := 0; i < n; i++ {
+		select {
+		case <-done:
+		case <-time.After(c28Wait):
+			return h.incon("concurrent Close did not return in time")
+		}
+	}
+	return true
+}
+
 func (h *c28H) run(c c28Case) bool {
 	x := h.x
 	for oi, op := range c.Ops {
@@ -493,7 +548,11 @@ func (h *c28H) run(c c28Case) bool {
 				if !h.postClose(kind, op) {
 					return false
 				}
-			case "close":
+			case "openx":
+				if !h.postClose(op.Mid, op) {
+					return false
+				}
+			case "close", "closerace":
 				if err := h.cl.Close(); err != nil {
 					x.Violationf("second-close-error", "op %d: Close on a closed client returned %v", oi, err)
 					return false
@@ -531,6 +590,39 @@ func (h *c28H) run(c c28Case) bool {
 			if !h.hangup() {
 				return false
 			}
+		case "openx":
+			// a subscription request the agent has read but not answered when the
+			// connection ends: the waiting call and Close both see the handler
+			if op.Mid != "stream" && op.Mid != "monitor" && op.Mid != "query" {
+				return h.incon("malformed openx op")
+			}
+			h.openX++
+			sub := h.newSub(op, op.Mid)
+			res := h.callOpen(sub)
+			if _, ok := h.expect(op.Mid); !ok {
+				return false
+			}
+			if op.With == "hangup" {
+				if !h.hangup() {
+					return false
+				}
+			} else {
+				_ = h.cl.Close()
+				h.markClosed()
+			}
+			if _, ok := h.join(res, "open interrupted by "+op.With); !ok {
+				return false
+			}
+			// never acknowledged; its channels must be closed (once) all the same
+			sub.seq = 0
+			h.subs = append(h.subs, sub)
+		case "closerace":
+			// Close from several goroutines at once, optionally while the agent
+			// hangs up (the reader goroutine then closes the client as well)
+			if !h.closeRace(op.N, op.With == "hangup") {
+				return false
+			}
+			h.markClosed()
 		case "burst":
 			if len(h.subs) == 0 {
 				continue
@@ -704,7 +796,11 @@ func bodyC28(c c28Case, x *vkit.Ctx) {
 
 	okRun := h.run(c)
 
-	// ---- wind down: Close (idempotent), then the end-state obligations
+	// ---- wind down: Close (idempotent; from three goroutines at once if the
+	// script left the client open), then the end-state obligations
+	if !h.closed && okRun {
+		h.closeRace(4, false)
+	}
 	_ = h.cl.Close()
 	h.markClosed()
 	if okRun {
@@ -769,6 +865,12 @@ func bodyC28(c c28Case, x *vkit.Ctx) {
 	}
 	if h.hungUp {
 		x.Label("agent-hangup")
+	}
+	if h.openX > 0 {
+		x.Label("open-unanswered-at-close")
+	}
+	if h.closeRaces > 0 {
+		x.Label("concurrent-close")
 	}
 	kinds := map[string]bool{}
 	for _, s := range h.subs {
